@@ -1444,6 +1444,23 @@ static void monitor_iter (
 	EGLPNUM_TYPENAME_EGlpNumAddUiTo (fi.totinfeas, 1000);
 	if (EGLPNUM_TYPENAME_EGlpNumIsLessZero (fi.totinfeas))
 	{
+		/* the value is kept up to date by the changes the ratio tests report; a
+		 * sum of infeasibilities below zero cannot be: take the real one before
+		 * giving up */
+		if (phase == PRIMAL_PHASEI)
+		{
+			EGLPNUM_TYPENAME_ILLfct_check_pfeasible (lp, &fi, lp->tol->ip_tol);
+			EGLPNUM_TYPENAME_EGlpNumCopy (fi.totinfeas, lp->pinfeas);
+		}
+		else
+		{
+			EGLPNUM_TYPENAME_ILLfct_check_dfeasible (lp, &fi, lp->tol->id_tol);
+			EGLPNUM_TYPENAME_EGlpNumCopy (fi.totinfeas, lp->dinfeas);
+		}
+		EGLPNUM_TYPENAME_EGlpNumAddUiTo (fi.totinfeas, 1000);
+	}
+	if (EGLPNUM_TYPENAME_EGlpNumIsLessZero (fi.totinfeas))
+	{
 		it->nextstep = SIMPLEX_TERMINATE;
 		it->solstatus = ILL_MAX_ITER;
 		MESSAGE (it->sdisplay ? 0 : __QS_SB_VERB,
